@@ -46,7 +46,8 @@ BEAT_PARAMS = {
     "p_score": {"p_score_threshold": [0.2, 0.25, 0.125]},
     "continuity": {"continuity_phase_threshold": [0.175, 0.125, 0.25],
                    "continuity_period_threshold": [0.175, 0.125, 0.25]},
-    "information_gain": {"bins": [41, 21, 5, 11]},
+    # even values are admitted (the function only warns)
+    "information_gain": {"bins": [41, 21, 5, 11, 40, 10, 4, 2]},
 }
 
 
@@ -179,11 +180,15 @@ def calls_segment(inp, r):
     fs = pick(r, FRAME_SIZES)
     beta = pick(r, [1.0, 0.25, 2.0])
     four = _seg4(inp)
+    bref, best = inp["ref_iv"], inp["est_iv"]
+    if r.random() < 0.25:
+        # boundary metrics accept any valid interval array, also with gaps
+        bref, best = gen.gapped_intervals(r), gen.gapped_intervals(r)
     out = [
-        ("segment.detection", (inp["ref_iv"], inp["est_iv"]),
+        ("segment.detection", (bref, best),
          draw_params(r, {"window": [0.5, 3.0, 0.25, 1 / 16], "beta": [1.0, 0.5, 2.0],
                          "trim": [False, True]})),
-        ("segment.deviation", (inp["ref_iv"], inp["est_iv"]),
+        ("segment.deviation", (bref, best),
          draw_params(r, {"trim": [False, True]})),
         ("segment.pairwise", four, {"frame_size": fs, "beta": beta}),
         ("segment.rand_index", four, {"frame_size": fs}),
@@ -325,6 +330,11 @@ def gen_melody(r):
     if r.random() < 0.3:
         ref_reward = np.array([r.choice([0.0, 0.5, 1.0, 1.0, 0.75])
                                for _ in ref_time])
+    if r.random() < 0.12:
+        # integer-typed frequency arrays (e.g. Hz rounded by an annotation tool)
+        ref_freq = np.round(ref_freq).astype(np.int64)
+        est_freq = np.round(est_freq).astype(np.int64)
+        kind += "/int-hz"
     return {"ref_time": ref_time, "ref_freq": ref_freq, "est_time": est_time,
             "est_freq": est_freq, "est_voicing": est_voicing,
             "ref_reward": ref_reward, "cls": kind + ("/t0" if t0 == 0 else "/t>0")}
